@@ -296,8 +296,10 @@ class EqObj(Val):
 
 
 class Opaque(Val):
-    def __init__(self, text):
+    def __init__(self, text, role=None, name=None):
         self.text = text
+        self.role = role        # 'block:' / 'eq:' references carry the owning object ...
+        self.name = name        # ... and the key of the equation, so that they survive being held in a local
 
     def key(self):
         return ('opaque', self.text)
